@@ -1,5 +1,6 @@
 import Octo.Lemmas.SqlJoinCtx
 import Octo.Props.C02Nodes
+import Octo.Lemmas.JoinNoRetr
 /-!
   Execution against the relational reading (C02): whatever interleavings the scheduler picks at the join nodes,
   if a plan runs without error then the changelog it produces consolidates to `planBag` of the plan
@@ -578,6 +579,172 @@ theorem denote_sound {db : Db} (hdb : DbOK db) {sch : Sched} (hs : ValidSched sc
         exact ihj (ctx ++ l.vals) R hok.2 hR
       · intro a a' ha
         exact planBag_ctx_congr db j (cmpList_ctx (cmpList_refl ctx) ha)
+
+/-! ### `NoRetractions` is sound -/
+theorem rowOp_nr (h : VRow → Option VRow) {A : List Rec} (hA : NR A) : NR (rowOp h A) := by
+  intro r hr
+  unfold rowOp at hr
+  simp only [List.mem_filterMap] at hr
+  obtain ⟨a, ha, hm⟩ := hr
+  cases hv : h a.vals with
+  | none => simp [hv] at hm
+  | some v =>
+    simp only [hv, Option.map_some, Option.some.injEq] at hm
+    rw [← hm]; exact hA a ha
+
+theorem aug_nr {keys : List SExpr} {ctx : VRow} {L L' : List Rec} (h : Forall2 (Aug keys ctx) L L') (hL : NR L) : NR L' := by
+  induction h with
+  | nil => exact NR.nil
+  | @cons l l1 L L1 hl _ ih =>
+    intro r hr
+    simp only [List.mem_cons] at hr
+    rcases hr with rfl | hr
+    · obtain ⟨x, _, rfl⟩ := hl
+      exact hL l (by simp)
+    · exact ih (fun x hx => hL x (by simp [hx])) r hr
+
+theorem merge_mem {α : Type} {a b c : List α} (h : Merge a b c) : ∀ e ∈ c, e ∈ a ∨ e ∈ b := by
+  induction h with
+  | nil => intro e he; simp at he
+  | left _ ih =>
+    intro e he
+    simp only [List.mem_cons] at he ⊢
+    rcases he with rfl | he
+    · exact Or.inl (Or.inl rfl)
+    · rcases ih e he with h | h
+      · exact Or.inl (Or.inr h)
+      · exact Or.inr h
+  | right _ ih =>
+    intro e he
+    simp only [List.mem_cons] at he ⊢
+    rcases he with rfl | he
+    · exact Or.inr (Or.inl rfl)
+    · rcases ih e he with h | h
+      · exact Or.inl h
+      · exact Or.inr (Or.inr h)
+
+theorem evsOf_data_mem {left : Bool} {X : List Rec} {e : Ev} {r : Rec} (he : e ∈ evsOf left (X.map Msg.data))
+    (hm : e.msg = some (.data r)) : r ∈ X := by
+  unfold evsOf at he
+  simp only [List.map_map, List.mem_append, List.mem_map, Function.comp_apply, List.mem_singleton] at he
+  rcases he with ⟨x, hx, rfl⟩ | rfl
+  · simp only [Option.some.injEq, Msg.data.injEq] at hm
+    subst hm; exact hx
+  · simp at hm
+
+theorem joinNode_nr {sch : Sched} (hs : ValidSched sch) {cfg : Cfg} (hL : cfg.outerL = false) (hR : cfg.outerR = false)
+    {nL k nR : Nat} {L' R' out : List Rec} (hl : NR L') (hr : NR R') (h : joinNode sch cfg nL k nR L' R' = some out) : NR out := by
+  unfold joinNode at h
+  split at h
+  · rename_i o ho
+    simp only [Option.some.injEq] at h
+    subst h
+    have hnr := run_nr hL hR (σ := sch (evsOf true (L'.map Msg.data)) (evsOf false (R'.map Msg.data))) (by
+      intro e he r hm
+      rcases merge_mem (hs _ _) e he with h1 | h1
+      · exact hl r (evsOf_data_mem h1 hm)
+      · exact hr r (evsOf_data_mem h1 hm)) ho
+    intro x hx
+    simp only [List.mem_map] at hx
+    obtain ⟨y, hy, rfl⟩ := hx
+    exact hnr y hy
+  · cases h
+
+/-- a plan whose schema says `NoRetractions` produces no retraction, under every scheduler -/
+theorem denote_nr {db : Db} {sch : Sched} (hs : ValidSched sch) :
+    ∀ (p : Plan) (ctx : VRow) (out : List Rec), p.noRetr = true → denote sch db p ctx = some out → NR out := by
+  intro p
+  induction p with
+  | scan i =>
+    intro ctx out _ h
+    simp only [denote, Option.some.injEq] at h
+    subst h
+    intro r hr
+    simp only [List.mem_map] at hr
+    obtain ⟨v, _, rfl⟩ := hr
+    rfl
+  | filter q s ih =>
+    intro ctx out hn h
+    simp only [Plan.noRetr] at hn
+    simp only [denote] at h
+    cases hsd : denote sch db s ctx with
+    | none => simp [hsd] at h
+    | some rs =>
+      simp only [hsd] at h
+      rw [filterRecs_eq q ctx rs out h]
+      exact rowOp_nr _ (ih ctx rs hn hsd)
+  | map es s ih =>
+    intro ctx out hn h
+    simp only [Plan.noRetr] at hn
+    simp only [denote] at h
+    cases hsd : denote sch db s ctx with
+    | none => simp [hsd] at h
+    | some rs =>
+      simp only [hsd] at h
+      rw [mapRecs_eq es ctx rs out h]
+      exact rowOp_nr _ (ih ctx rs hn hsd)
+  | streamJoin kl kr l r ihl ihr =>
+    intro ctx out hn h
+    simp only [Plan.noRetr, Bool.and_eq_true] at hn
+    simp only [denote] at h
+    cases hl : denote sch db l ctx with
+    | none => simp [hl] at h
+    | some L =>
+      cases hr : denote sch db r ctx with
+      | none => simp [hl, hr] at h
+      | some R =>
+        simp only [hl, hr] at h
+        split at h
+        · cases haL : augment kl ctx L with
+          | none => simp [haL] at h
+          | some L' =>
+            cases haR : augment kr ctx R with
+            | none => simp [haL, haR] at h
+            | some R' =>
+              simp only [haL, haR] at h
+              exact joinNode_nr hs rfl rfl (aug_nr (augment_forall2 kl ctx L L' haL) (ihl ctx L hn.1 hl))
+                (aug_nr (augment_forall2 kr ctx R R' haR) (ihr ctx R hn.2 hr)) h
+        · cases h
+  | outerJoin isL isR kl kr l r ihl ihr =>
+    intro ctx out hn h
+    simp only [Plan.noRetr, Bool.and_eq_true, Bool.not_eq_true'] at hn
+    obtain ⟨⟨⟨hnl, hnr⟩, hL⟩, hR⟩ := hn
+    subst hL; subst hR
+    simp only [denote] at h
+    cases hl : denote sch db l ctx with
+    | none => simp [hl] at h
+    | some L =>
+      cases hr : denote sch db r ctx with
+      | none => simp [hl, hr] at h
+      | some R =>
+        simp only [hl, hr] at h
+        split at h
+        · cases haL : augment kl ctx L with
+          | none => simp [haL] at h
+          | some L' =>
+            cases haR : augment kr ctx R with
+            | none => simp [haL, haR] at h
+            | some R' =>
+              simp only [haL, haR] at h
+              exact joinNode_nr hs rfl rfl (aug_nr (augment_forall2 kl ctx L L' haL) (ihl ctx L hnl hl))
+                (aug_nr (augment_forall2 kr ctx R R' haR) (ihr ctx R hnr hr)) h
+        · cases h
+  | lookupJoin s j _ _ => intro ctx out hn _; simp [Plan.noRetr] at hn
+
+/-- printing the values of a retraction-free changelog prints its consolidated content -/
+theorem raw_count : ∀ (rs : List Rec), NR rs → ∀ row, (countRow row (rs.map fun r => r.vals) : Int) = net rs row
+  | [], _, row => by simp [countRow, net]
+  | r :: rs, h, row => by
+    have ih := raw_count rs (fun x hx => h x (by simp [hx])) row
+    have hr : r.retr = false := h r (by simp)
+    have hw : r.weight row = if Octo.rowEq r.vals row then 1 else 0 := by
+      rw [weight_sgn, sgn_eq, hr]; rfl
+    simp only [List.map_cons, countRow, net_cons, hw]
+    have e : Sql.rowEq row r.vals = Octo.rowEq r.vals row := by rw [Join.rowEq_symm r.vals row]; rfl
+    rw [e]
+    push_cast
+    rw [ih]
+    split <;> simp
 
 /-! ### the consolidating sinks -/
 theorem removeFirst_count : ∀ (x : VRow) (acc acc' : List VRow), removeFirst x acc = some acc' →
